@@ -1240,7 +1240,12 @@ func randomCase(id int, rng *rand.Rand, family string, n int) Case {
 			b.c(CCmd{Kind: "token-delete", Accs: []string{tk1, tk2}[:1+rng.Intn(2)]})
 		case 8:
 			d := b.im.cdump()
-			b.c(CCmd{Kind: "ca-set-roots", Index: rootsIndex(&d), Roots: []RootReq{{ID: "r1", Active: rng.Intn(2) == 0}, {ID: "r2", Active: rng.Intn(2) == 0}}})
+			rs := []RootReq{{ID: "r1", Active: rng.Intn(2) == 0}, {ID: "r2", Active: rng.Intn(2) == 0}}
+			if rng.Intn(4) == 0 { // the same root ID twice: the later one is the one stored
+				rs = []RootReq{{ID: "r1", Active: true}, {ID: "r2", Active: false}, {ID: "r1", Active: false}, {ID: "r2", Active: true}}[rng.Intn(2)*2:][:2]
+				rs = append(rs, RootReq{ID: rs[0].ID, Active: !rs[0].Active})
+			}
+			b.c(CCmd{Kind: "ca-set-roots", Index: rootsIndex(&d), Roots: rs})
 		}
 	}
 	seen := map[string]uint64{} // target -> an index its entity carried earlier
